@@ -669,3 +669,80 @@ func c18Bounds(c *Ctx) {
 		c.Check(st.OK, R, "bnd:"+key, c.P.InstrPos(st.Instr), fmt.Sprintf("%s — %s", st.Expr, st.Why))
 	}
 }
+
+// ---- C01.7: stream and framer state is only touched with the owner's mutex held ----
+
+// guardedFields: fields that today are accessed under their struct's mutex at every site outside the constructors
+// (discovered with `uqcheck -explore lock`, confirmed by reading, frozen here).
+var guardedFields = map[string][]string{
+	"SendStream":    {"cancellationFlagged", "completed", "dataForWriting", "deadline", "finSent", "finishedWriting", "nextFrame", "numOutstandingFrames", "queuedResetStreamFrame", "reliableSize", "resetErr", "retransmissionQueue", "shutdownErr", "writeOffset"},
+	"ReceiveStream": {"cancelErr", "cancelledLocally", "cancelledRemotely", "closeForShutdownErr", "completed", "currentFrame", "currentFrameDone", "currentFrameIsLast", "deadline", "errorRead", "queuedMaxStreamData", "queuedStopSending", "readPos", "readPosInFrame", "reliableSize"},
+	"framer":        {"controlFrames", "pathResponses"},
+	"datagramQueue": {"rcvQueue"},
+}
+
+func c01Guarded(c *Ctx) {
+	const R = "C01.7"
+	acc := c.P.lockAnalysis(func(pk string) bool { return pk == modPath })
+	want := map[*types.Var]string{}
+	mutexes := map[*types.Var][]*types.Var{}
+	for typ, fields := range guardedFields {
+		tn := c.named("", typ)
+		st := tn.Type().Underlying().(*types.Struct)
+		var mus []*types.Var
+		for i := 0; i < st.NumFields(); i++ {
+			if typeIs(st.Field(i).Type(), "sync", "Mutex") || typeIs(st.Field(i).Type(), "sync", "RWMutex") {
+				mus = append(mus, st.Field(i).Origin())
+			}
+		}
+		if len(mus) == 0 {
+			c.Bad(R, "mutex:"+typ, "-", "no mutex field found")
+			continue
+		}
+		for _, f := range fields {
+			v := c.fld("", typ, f)
+			want[v] = typ + "." + f
+			mutexes[v] = mus
+		}
+	}
+	n := map[string]int{}
+	bad := map[string][]string{}
+	for _, a := range acc {
+		key, ok := want[a.Field]
+		if !ok {
+			continue
+		}
+		root := rootFn(a.Fn)
+		if strings.HasPrefix(root.Name(), "new") || strings.HasPrefix(root.Name(), "init") {
+			continue // construction: the object is not shared yet
+		}
+		n[key]++
+		held := false
+		for _, m := range mutexes[a.Field] {
+			if a.Held[m] {
+				held = true
+			}
+		}
+		if !held {
+			w := "read"
+			if a.Write {
+				w = "write"
+			}
+			bad[key] = append(bad[key], fmt.Sprintf("%s in %s at %s", w, funcName(a.Fn), c.P.InstrPos(a.Instr)))
+		}
+	}
+	total := 0
+	for _, key := range sortedKeys(wantKeys(want)) {
+		total += n[key]
+		c.Check(len(bad[key]) == 0 && n[key] > 0, R, "guarded:"+key, "-", fmt.Sprintf("%d accesses outside the constructors, all with the owner's mutex held (API calls and the run loop touch this state concurrently)%s", n[key], map[bool]string{true: "", false: " — without the mutex: " + strings.Join(bad[key], "; ")}[len(bad[key]) == 0]))
+	}
+	c.Floor(R, "accesses to guarded stream / framer fields", total, 250)
+}
+
+func wantKeys(m map[*types.Var]string) map[string]bool {
+	out := map[string]bool{}
+	for _, v := range m {
+		out[v] = true
+	}
+	return out
+}
